@@ -136,6 +136,68 @@ def normalise_renames(doc):
     return doc2, renames
 
 
+def _binding_pats(p, out):
+    if not isinstance(p, dict):
+        return
+    if p.get("k") == "Bind":
+        out.append(p)
+    for k in ("sub", "pat", "mid"):
+        if isinstance(p.get(k), dict):
+            _binding_pats(p[k], out)
+    for k in ("pats", "before", "after"):
+        for q in p.get(k, []) or []:
+            _binding_pats(q, out)
+    for f in p.get("fields", []) or []:
+        if isinstance(f, dict) and "pat" in f:
+            _binding_pats(f["pat"], out)
+
+
+def normalise_locals(doc):
+    """Undo pure renames of local variables / parameters: when a function binds the same number of variables with the same
+    types in the same order as on the pinned tree, differing names are mapped back to the pinned names (alpha-renaming by
+    binding id, which cannot change meaning). Any structural change leaves the function untouched."""
+    import tir as _tir
+    with open(os.path.join(VERIF, "rules", "anchors.json")) as fh:
+        anchors = json.load(fh)["fns"]
+    renamed = {}
+    for b in doc["bodies"]:
+        a = anchors.get(b["path"])
+        t = b.get("tir")
+        if not a or not t or "bindings" not in a or b["kind"] not in ("Fn", "AssocFn"):
+            continue
+        pats = []
+        for p in t["params"]:
+            _binding_pats(p, pats)
+        for n in _tir.walk(t["value"]):
+            if n.get("k") in ("Let", "LetCond", "For"):
+                _binding_pats(n.get("pat"), pats)
+            if n.get("k") == "Closure":
+                for p in n["params"]:
+                    _binding_pats(p, pats)
+            if n.get("k") == "Match":
+                for arm in n["arms"]:
+                    _binding_pats(arm["pat"], pats)
+        want = a["bindings"]
+        if len(pats) != len(want) or any(p.get("ty") != w[1] for p, w in zip(pats, want)):
+            continue
+        ren = {}
+        for p, w in zip(pats, want):
+            if p.get("name") != w[0]:
+                ren[p["id"]] = (p["name"], w[0])
+                p["name"] = w[0]
+        if not ren:
+            continue
+        # a rename must not capture: skip when the canonical name is already used by another live binding
+        names_now = set(p.get("name") for p in pats)
+        for n in _tir.walk(t["value"]):
+            if n.get("k") == "Path" and n.get("res") == "local" and n.get("id") in ren:
+                n["name"] = ren[n["id"]][1]
+        renamed[b["path"]] = sorted("%s->%s" % v for v in ren.values())
+    if renamed:
+        doc["_renamed_locals"] = renamed
+    return doc
+
+
 def load(repo=REPO, target_dir=None):
     """Facts for the lib target of the tree at `repo`, cached by source hash."""
     key = source_hash(repo)
@@ -174,6 +236,7 @@ def load(repo=REPO, target_dir=None):
         raise FactsError("fact file does not carry the hash of the analysed sources")
     cache = doc.get("_cache")
     doc, renames = normalise_renames(doc)
+    doc = normalise_locals(doc)
     doc["_cache"] = cache
     return doc
 
